@@ -1,10 +1,50 @@
 ENGINES = [
     {'name': 'X', 'path': 'lib/xworker.py', 'kind_free_text': 'CrossHair 0.0.110 symbolic execution of the real Python functions (z3 decides every branch), one OS process per condition, vacuity twin per condition, plain-CPython replay of every counterexample',
-     'serves_properties': ['C06', 'C09', 'C10', 'C15', 'C17']},
+     'serves_properties': ['C02', 'C06', 'C09', 'C10', 'C11', 'C13', 'C15', 'C17']},
+    {'name': 'Z', 'path': 'lib/zworker.py', 'kind_free_text': 'z3 sequence-theory queries over SHA-1 pre-image terms recorded by executing the real digest code on symbolic strings (lib/zsym.py); sat models replayed on the real functions with the real hashlib',
+     'serves_properties': ['C02', 'C03', 'C07']},
 ]
 NOTES = ('Technique family: solver-based checking of the real code. Every result is bounded; bounds, stubs and '
          'assumptions are in evidence/<id>.json and DESIGN.md. Exit 2 of ./check = harness error (never a verdict).')
 CLAIMS = {
+    'C02': dict(
+        engine='Z+X',
+        technique='z3 collision queries over the Variant-Id pre-image recorded from the real CoreStep.getDigest / mergeScripts on symbolic strings; CrossHair enumeration of variable-list memberships through the real Recipe.prepare',
+        text='(1) For every pair of step shapes in the bound (<= 2 tools x <= 2 libs, <= 2 variables, <= 2 arguments; symbolic contents/lengths) two steps with different script / tools (variant, path, libs) / '
+             'strong variables / valid argument ids never feed the same bytes into SHA-1 (unsat). (2) For class+recipe with every placement of Setup/Script/Finalize fragments: different executed fragment '
+             'sequence => different digest script, except the recorded known finding (Finalize order). (3) For all 2^14 memberships of a variable in the six *Vars/*VarsWeak lists of recipe and class: '
+             'a step sees the variable iff declared for it or an earlier step, its Variant-Id changes with the value iff it is strongly declared.',
+        design_ref='DESIGN.md section 4, C02',
+        note='Trusted: SHA-1 injectivity, ASCII strings with lengths < 256, specs of the documented variable rules. Outside: SCM asDigestScript text formats, YAML loading, include files, tool environment, provided variables of dependencies.'),
+    'C03': dict(
+        engine='Z',
+        technique='z3 non-interference and equivalence queries over the id pre-images recorded from the real CoreStep.getDigest and StepIR.getDigestCoro (vs. each other and vs. a frozen byte-format specification)',
+        text='Within the shape bound: the Variant-Id pre-image does not change with dict insertion order of tools/variables, weak or undeclared variables, the sandbox of an un-fingerprinted step, or the host part of a tool '
+             'provider id; CoreStep.getDigest, StepIR.getDigestCoro and the frozen format specification produce identical bytes for all contents (so stored, Jenkins and live ids agree and existing ids stay valid).',
+        design_ref='DESIGN.md section 4, C03',
+        note='Partial: parser-level independence (paths, timestamps, listing order, PYTHONHASHSEED, parse order) needs whole-program runs and is outside; golden ids of test/black-box/stable-variant-ids are not re-run here.'),
+    'C07': dict(
+        engine='Z',
+        technique='z3 collision / non-interference queries over the Build-Id pre-image recorded from the real StepIR.getDigestCoro(fingerprint, platform, relaxTools=True)',
+        text='Within the shape bound: different source/argument ids, scripts, strong variables, strong tools (id, path, libs), fingerprint or platform never give the same Build-Id pre-image; the variant of a weakly used '
+             'tool does not enter it. Part of the property only: the download decision logic (_downloadPackage, restart on wrong live-build-id prediction) is not covered yet.',
+        design_ref='DESIGN.md section 4, C07',
+        note='Trusted: SHA-1 injectivity. Outside: archive transports, fingerprint script execution, download decision code.'),
+    'C11': dict(
+        engine='X',
+        technique='bounded symbolic histories / entry pairs (CrossHair+z3 choose modifications and entry attributes) through the real DirHasher and FileIndex on a stub file system',
+        text='Cache transparency: for every history of <= 3 modifications (13 kinds x 3 targets, each changing inode, size, mtime or ctime) of a tree, the hash computed with the persistent index equals the hash without it after '
+             'every step (incl. warm re-run). Exactness: for a base tree plus one symbolic entry per side (4 names x 6 kinds x mode x content) hashes are equal iff name, type, permission bits and content/link text agree; '
+             'timestamps, inode numbers, listing order and what a symlink resolves to do not matter; SCM directories are ignored.',
+        design_ref='DESIGN.md section 4, C11',
+        note='Trusted: SymFS stat model, SHA-1. Outside: unique decodability of the directory blob for arbitrary names (planned z3 query), device/fifo nodes, trees larger than the bound.'),
+    'C13': dict(
+        engine='X',
+        technique='CrossHair enumeration of variable declarations through the real Recipe.prepare pipeline against the documented visibility rule',
+        text='Part of the property: for all 2^14 combinations of a variable being listed in {checkout,build,package}Vars[Weak] of a recipe and an inherited class (defined or not), each step sees exactly the variables declared '
+             'for it or an earlier step, with the declared value. Not covered yet: shell quoting of values, host environment whitelist, fingerprint environment, sandbox mounts.',
+        design_ref='DESIGN.md section 4, C13',
+        note='Outside: namespace-sandbox.c, PowerShell, execution of real scripts.'),
     'C15': dict(
         engine='X',
         technique='symbolic execution (CrossHair+z3) of LocalShare.gc/install/use from an arbitrary valid store with symbolic sizes/quota/flags, plus bounded symbolic interleavings of two store operations with an flock model',
